@@ -46,7 +46,10 @@ Record btrace := {
   bt_litmode : N;        (* 0 raw 1 rle 2 compressed 3 treeless ; +4 when 4 streams *)
   bt_litsize : N;
   bt_seqmodes : N;       (* the symbol-compression-modes byte (0 when no sequences) *)
-  bt_seqs : list seq }.
+  bt_seqs : list seq;
+  bt_nbseq_bytes : N;    (* size of the Number_of_Sequences field (1, 2 or 3) ; 0 for raw/RLE blocks *)
+  bt_lasttable : N }.    (* bytes from the start of the last FSE_Compressed_Mode table description to the end
+                            of the block ; 0 when no table of the block uses that mode *)
 
 (* ---------- literals section ---------- *)
 (* returns literals, new Huffman table (if any), bytes consumed, mode code *)
@@ -65,12 +68,12 @@ Definition decode_literals (blockMax : N) (huf : option huf_table) (src : bytes)
       let n := if N.even sf then N.shiftr hv 3 else N.shiftr hv 4 in
       check (n <=? blockMax) else Esafety @ 302;
       if ltype =? 0 then
-        do sp <- of_opt (splitn (N.to_nat n) rest) Esafety 303;
+        do sp <- of_opt (splitN n rest) Esafety 303;
         Ok (fst sp, huf, hsz + n, 0)
       else
         match rest with
         | [] => Err Etrunc 304
-        | v :: _ => Ok (repeatN v (N.to_nat n) [], huf, hsz + 1, 1)
+        | v :: _ => Ok (repeatN v n [], huf, hsz + 1, 1)
         end
     else
       let hsz := if sf <? 2 then 3 else if sf =? 2 then 4 else 5 in
@@ -81,11 +84,11 @@ Definition decode_literals (blockMax : N) (huf : option huf_table) (src : bytes)
       let csz := N.land (N.shiftr hv (4 + nbits)) (pow2 nbits - 1) in
       let four := negb (sf =? 0) in
       check (n <=? blockMax) else Esafety @ 306;
-      do sp <- of_opt (splitn (N.to_nat csz) rest) Esafety 307;
+      do sp <- of_opt (splitN csz rest) Esafety 307;
       let body := fst sp in
       do tb <- (if ltype =? 2 then
                   do r <- read_huf_table LitHufLog body;
-                  let '(t, used) := r in Ok (t, skipn (N.to_nat used) body)
+                  let '(t, used) := r in Ok (t, skipN body used)
                 else
                   do t <- of_opt huf Edict 308; Ok (t, body));
       let '(t, streams) := tb in
@@ -119,7 +122,7 @@ Definition seq_table (mode : N) (maxSV maxLog : N) (deflog : N) (defnorm : list 
     do r <- read_ncount maxSV maxLog src;
     let '(log, counts, used) := r in
     do t <- build_dtable log counts;
-    Ok (t, skipn (N.to_nat used) src)
+    Ok (t, skipN src used)
   else
     do t <- of_opt prev Edict 322; Ok (t, src).
 
@@ -158,7 +161,7 @@ Definition add_mark (marks : list (N * list N)) (len : N) (hist : list N) : list
 
 (* push n bytes (already reversed: newest first in [seg]) *)
 Definition push_rev (x : xstate) (seg : list N) (n : N) : xstate :=
-  let h := seg ++ x_hist x in
+  let h := app_tr seg (x_hist x) in
   let a := x_avail x + n in
   {| x_hist := h; x_marks := add_mark (x_marks x) a h; x_avail := a; x_pos := x_pos x + n; x_blk := x_blk x + n |}.
 (* push n bytes given oldest first *)
@@ -176,15 +179,15 @@ Fixpoint find_mark (marks : list (N * list N)) (target : N) (best : N * list N) 
 (* the history as it was when it had length [target] (target <= x_avail) *)
 Definition suffix_at (x : xstate) (target : N) : list N :=
   let '(l, s) := find_mark (x_marks x) target (x_avail x, x_hist x) in
-  skipn (N.to_nat (l - target)) s.
+  skipN s (l - target).
 
 (* copy a match of length ml at distance off; history is newest first *)
 Fixpoint copy_match (fuel : nat) (x : xstate) (off ml : N) : xstate :=
   match fuel with
   | O => x
   | S f =>
-    if ml <=? off then push_rev x (firstn (N.to_nat ml) (suffix_at x (x_avail x - (off - ml)))) ml
-    else copy_match f (push_rev x (firstn (N.to_nat off) (x_hist x)) off) off (ml - off)
+    if ml <=? off then push_rev x (takeN ml (suffix_at x (x_avail x - (off - ml)))) ml
+    else copy_match f (push_rev x (takeN off (x_hist x)) off) off (ml - off)
   end.
 
 (* window rule of the format: an offset may exceed the frame position (reach the dictionary) only
@@ -197,7 +200,7 @@ Definition offset_ok (strict : bool) (window : N) (x : xstate) (off : N) : bool 
 
 Definition exec_seq (strict : bool) (window blockMax : N) (x : xstate) (lits : list N) (ll ml off : N)
   : res (xstate * list N) :=
-  do sp <- of_opt (splitn (N.to_nat ll) lits) Esafety 340;
+  do sp <- of_opt (splitN ll lits) Esafety 340;
   let x1 := push_fwd x (fst sp) ll in
   check (offset_ok strict window x1 off) else Esafety @ 341;
   check (x_blk x1 + ml <=? blockMax) else Esafety @ 342;
@@ -246,19 +249,21 @@ Definition decode_cblock (strict : bool) (window blockMax : N) (e : entropy) (x 
   check (2 <=? lenN src) else Eformat @ 360;
   do l <- decode_literals blockMax (e_huf e) src;
   let '(lits, huf', lused, lmode) := l in
-  let rest := skipn (N.to_nat lused) src in
+  let rest := skipN src lused in
   do ns <- read_nbseq rest;
   let '(nbseq, rest1) := ns in
   let x0 := {| x_hist := x_hist x; x_marks := x_marks x; x_avail := x_avail x; x_pos := x_pos x; x_blk := 0 |} in
-  let finish (e' : entropy) (xs : xstate) (lits' : list N) (modes : N) (sqs : list seq) :=
+  let nsb := lenN rest - lenN rest1 in
+  let finish (e' : entropy) (xs : xstate) (lits' : list N) (modes : N) (sqs : list seq) (lastt : N) :=
       let nl := lenN lits' in
       check (x_blk xs + nl <=? blockMax) else Esafety @ 361;
       let xf := push_fwd xs lits' nl in
       Ok (e', xf, {| bt_type := 2; bt_last := false; bt_csize := lenN src; bt_rsize := x_blk xf;
-                     bt_litmode := lmode; bt_litsize := lenN lits; bt_seqmodes := modes; bt_seqs := sqs |}) in
+                     bt_litmode := lmode; bt_litsize := lenN lits; bt_seqmodes := modes; bt_seqs := sqs;
+                     bt_nbseq_bytes := nsb; bt_lasttable := lastt |}) in
   if nbseq =? 0 then
     check (match rest1 with [] => true | _ => false end) else Eformat @ 362;
-    finish {| e_huf := huf'; e_ll := e_ll e; e_of := e_of e; e_ml := e_ml e; e_rep := e_rep e |} x0 lits 0 []
+    finish {| e_huf := huf'; e_ll := e_ll e; e_of := e_of e; e_ml := e_ml e; e_rep := e_rep e |} x0 lits 0 [] 0
   else
     match rest1 with
     | [] => Err Etrunc 363
@@ -274,6 +279,9 @@ Definition decode_cblock (strict : bool) (window blockMax : N) (e : entropy) (x 
       do r <- seq_loop (N.to_nat nbseq) strict window blockMax (fst tl) (fst to) (fst tm)
                        (fst i1) (fst i2) (fst i3) (snd i3) (e_rep e) x0 lits [];
       let '(xs, lits', rep', sqs) := r in
+      let lastt := if N.land (N.shiftr modes 2) 3 =? 2 then lenN (snd to)
+                   else if N.land (N.shiftr modes 4) 3 =? 2 then lenN (snd tl)
+                   else if N.shiftr modes 6 =? 2 then lenN rest2 else 0 in
       finish {| e_huf := huf'; e_ll := Some (fst tl); e_of := Some (fst to); e_ml := Some (fst tm); e_rep := rep' |}
-             xs lits' modes sqs
+             xs lits' modes sqs lastt
     end.
